@@ -265,9 +265,10 @@ theorem setupCursor_events (dev : Dev) (s : St) (f : Bool) (n x y hx hy : Nat) (
     (hok : (setupCursor dev f s n x y hx hy).res = .ok v) :
     (setupCursor dev f s n x y hx hy).evs =
       [.alloc s.nextDma 4 true, .req 0 (.create2d RESOURCE_ID_CURSOR 64 64),
-       .req 0 (.attach RESOURCE_ID_CURSOR s.nextDma 16384), .req 0 (.transfer 0 0 64 64 0 RESOURCE_ID_CURSOR),
-       .req 1 (.cursor false SCANOUT_ID x y RESOURCE_ID_CURSOR hx hy)]
+       .req 0 (.attach RESOURCE_ID_CURSOR s.nextDma 16384)]
       ++ (match s.cursor with | none => [] | some old => [.dealloc old.region old.pages])
+      ++ [.req 0 (.transfer 0 0 64 64 0 RESOURCE_ID_CURSOR),
+          .req 1 (.cursor false SCANOUT_ID x y RESOURCE_ID_CURSOR hx hy)]
     ∧ (setupCursor dev f s n x y hx hy).st.cursor = some ⟨s.nextDma, 4⟩ ∧ n = 16384 := by
   generalize hout : setupCursor dev f s n x y hx hy = out at hok ⊢
   rcases hfb : s.fb with _ | d <;> gpu_unfold [hfb] at hout <;>
@@ -464,17 +465,18 @@ theorem inv_fb_teardown (cur : Option Dma) (n : Nat) (t : Track) (d : Dma) (hi :
     · exact hi.fresh r p hl
   · intro d0 d' hd; simp at hd
 
-/-- cursor set-up: allocate, create, attach the new region, transfer, update cursor, then release a previous buffer -/
+/-- cursor set-up: allocate, create, attach the new region, release a previous buffer, transfer, update cursor -/
 theorem inv_cursor (fb old : Option Dma) (n : Nat) (t : Track) (x y hx hy : Nat) (hi : BackInv fb old n t) :
     BackInv fb (some ⟨n, 4⟩) (n + 1)
       (t.run ([.alloc n 4 true, .req 0 (.create2d RESOURCE_ID_CURSOR 64 64),
-               .req 0 (.attach RESOURCE_ID_CURSOR n 16384), .req 0 (.transfer 0 0 64 64 0 RESOURCE_ID_CURSOR),
-               .req 1 (.cursor false SCANOUT_ID x y RESOURCE_ID_CURSOR hx hy)]
-              ++ (match old with | none => [] | some o => [.dealloc o.region o.pages]))) := by
+               .req 0 (.attach RESOURCE_ID_CURSOR n 16384)]
+              ++ (match old with | none => [] | some o => [.dealloc o.region o.pages])
+              ++ [.req 0 (.transfer 0 0 64 64 0 RESOURCE_ID_CURSOR),
+                  .req 1 (.cursor false SCANOUT_ID x y RESOURCE_ID_CURSOR hx hy)])) := by
   have hfc : RESOURCE_ID_FB ≠ RESOURCE_ID_CURSOR := by decide
   cases old with
   | none =>
-    simp only [Track.run, List.append_nil, List.foldl, Track.ev]
+    simp only [Track.run, List.append_nil, List.nil_append, List.cons_append, List.foldl, Track.ev]
     refine ⟨?_, ?_, ?_, ?_, ?_, ?_⟩
     · simp [hi.ok]
     · intro res r len hb
@@ -616,20 +618,280 @@ theorem backing_never_released_while_attached (dev : Dev) (hdev : NoDeviceErrors
     exact ⟨by simp [Track.init], by simp [Track.init], by simp, by simp, by simp [Track.init], by simp⟩
   exact (history_inv dev hdev ops s0 _ hinit hp).ok
 
-/-- why "absent device errors" is needed: if the device rejects `SET_SCANOUT`, the driver releases the
-region it has just attached (observation; the property excludes device errors) -/
+/-! ### …and for every device (since fix 1ac4978)
+
+The device is taken at its word: a control command it answered with anything but the expected
+success type had no effect on it.  `effective` drops those commands from an operation's trace; the
+same observer `Track` then runs over what remains. -/
+
+/-- the trace as the device acted on it: control-queue commands answered with another type than the
+expected success type are dropped (`k` = index of the control request within the operation) -/
+def effective (dev : Dev) (b st : Nat) : Nat → List Ev → List Ev
+  | _, [] => []
+  | k, .req 0 c :: rest =>
+    if fieldAt (dev k (c.encode b st)) 0 4 = c.expected then .req 0 c :: effective dev b st (k + 1) rest
+    else effective dev b st (k + 1) rest
+  | k, e :: rest => e :: effective dev b st k rest
+
+/-- a rejected attach followed by the release of the fresh region -/
+theorem inv_alloc_release (fb cur : Option Dma) (n p : Nat) (t t' : Track) (hi : BackInv fb cur n t)
+    (hl : t'.live = fun x => if x = n then none else if x = n then some p else t.live x)
+    (hb : t'.backing = t.backing)
+    (hv : t'.violated = (t.violated ∨ ∃ res len, t.backing res = some (n, len))) :
+    BackInv fb cur (n + 1) t' := by
+  have hnl : ∀ q, t.live n ≠ some q := fun q h => by have := hi.fresh _ _ h; omega
+  have hnb : ∀ res len, t.backing res ≠ some (n, len) := by
+    intro res len h
+    rcases hi.back res n len h with ⟨_, d, hd, hr⟩ | ⟨_, d, hd, hr⟩
+    · exact hnl _ (hr ▸ hi.fbLive d hd)
+    · exact hnl _ (hr ▸ hi.curLive d hd)
+  have hlive : ∀ x, t'.live x = t.live x := by
+    intro x; rw [hl]; by_cases hx : x = n
+    · subst hx; simp; cases h : t.live x with
+      | none => rfl
+      | some q => exact absurd h (hnl q)
+    · simp [hx]
+  refine ⟨?_, ?_, ?_, ?_, ?_, hi.distinct⟩
+  · rw [hv]; simp only [not_or, not_exists]; exact ⟨hi.ok, fun res len h => hnb res len h⟩
+  · rw [hb]; exact hi.back
+  · intro d hd; rw [hlive]; exact hi.fbLive d hd
+  · intro d hd; rw [hlive]; exact hi.curLive d hd
+  · intro r q h; rw [hlive] at h; have := hi.fresh r q h; omega
+
+/-- a detach the device accepted while the driver still holds the framebuffer -/
+theorem inv_detach (d : Dma) (cur : Option Dma) (n : Nat) (t t' : Track) (hi : BackInv (some d) cur n t)
+    (hl : t'.live = t.live)
+    (hb : t'.backing = fun x => if x = RESOURCE_ID_FB then none else t.backing x)
+    (hv : t'.violated = t.violated) : BackInv (some d) cur n t' := by
+  refine ⟨by rw [hv]; exact hi.ok, ?_, by rw [hl]; exact hi.fbLive, by rw [hl]; exact hi.curLive,
+    by rw [hl]; exact hi.fresh, hi.distinct⟩
+  intro res r len h
+  rw [hb] at h
+  by_cases h1 : res = RESOURCE_ID_FB
+  · simp [h1] at h
+  · simp only [h1, ↓reduceIte] at h; exact hi.back res r len h
+
+/-- fresh framebuffer, any page count that covers the length (the set-scanout command has no effect on
+the observer, accepted or not) -/
+theorem inv_fb_attach_gen (cur : Option Dma) (n : Nat) (t : Track) (w h p : Nat) (hp : w * h * 4 ≤ p * 4096)
+    (hi : BackInv none cur n t) :
+    BackInv (some ⟨n, p⟩) cur (n + 1)
+      (t.run [.req 0 (.create2d RESOURCE_ID_FB w h), .alloc n p true, .req 0 (.attach RESOURCE_ID_FB n (w * h * 4))]) := by
+  simp only [Track.run, List.foldl, Track.ev]
+  refine ⟨?_, ?_, ?_, ?_, ?_, ?_⟩
+  · simp [hi.ok]; exact hp
+  · intro res r len hb
+    simp only at hb
+    split at hb
+    · rename_i h1; simp at hb; left; exact ⟨h1, _, rfl, hb.1⟩
+    · rcases hi.back res r len hb with ⟨_, d, hd, _⟩ | hr
+      · simp at hd
+      · right; exact hr
+  · intro d hd; simp at hd; subst hd; simp
+  · intro d hd
+    have := hi.fresh _ _ (hi.curLive d hd)
+    have hne : d.region ≠ n := by omega
+    simp only [hne, ↓reduceIte]
+    exact hi.curLive d hd
+  · intro r q hl
+    simp only at hl
+    split at hl
+    · omega
+    · have := hi.fresh r q hl; omega
+  · intro d d' hd hd'
+    simp at hd; subst hd
+    have := hi.fresh _ _ (hi.curLive d' hd')
+    simp; omega
+
+theorem inv_fb_attach_zero (cur : Option Dma) (n : Nat) (t : Track) (w h : Nat) (hz : pagesFor (w * h * 4) = 0)
+    (hi : BackInv none cur n t) :
+    BackInv (some ⟨n, 0⟩) cur (n + 1)
+      (t.run [.req 0 (.create2d RESOURCE_ID_FB w h), .alloc n 0 true, .req 0 (.attach RESOURCE_ID_FB n (w * h * 4))]) := by
+  have := inv_fb_attach_gen cur n t w h (pagesFor (w * h * 4)) (pages_cover _) hi
+  rwa [hz] at this
+
+/-- cursor set-up up to the accepted attach and the release of a previous buffer (transfer and the
+cursor-queue command have no effect on the observer) -/
+theorem inv_cursor_none (fb : Option Dma) (n : Nat) (t : Track) (hi : BackInv fb none n t) :
+    BackInv fb (some ⟨n, 4⟩) (n + 1)
+      (t.run [.alloc n 4 true, .req 0 (.create2d RESOURCE_ID_CURSOR 64 64),
+              .req 0 (.attach RESOURCE_ID_CURSOR n 16384)]) := by
+  simpa [Track.run, Track.ev] using inv_cursor fb none n t 0 0 0 0 hi
+
+theorem inv_cursor_some (fb : Option Dma) (o : Dma) (n : Nat) (t : Track) (hi : BackInv fb (some o) n t) :
+    BackInv fb (some ⟨n, 4⟩) (n + 1)
+      (t.run [.alloc n 4 true, .req 0 (.create2d RESOURCE_ID_CURSOR 64 64),
+              .req 0 (.attach RESOURCE_ID_CURSOR n 16384), .dealloc o.region o.pages]) := by
+  simpa [Track.run, Track.ev] using inv_cursor fb (some o) n t 0 0 0 0 hi
+
+/-! events without effect on the observer -/
+theorem run_skip_setScanout (t : Track) (a b c d e f : Nat) (l : List Ev) :
+    t.run (.req 0 (.setScanout a b c d e f) :: l) = t.run l := rfl
+theorem run_skip_transfer (t : Track) (a b c d e f : Nat) (l : List Ev) :
+    t.run (.req 0 (.transfer a b c d e f) :: l) = t.run l := rfl
+theorem run_skip_flush (t : Track) (a b c d e : Nat) (l : List Ev) :
+    t.run (.req 0 (.flush a b c d e) :: l) = t.run l := rfl
+theorem run_skip_getDisplayInfo (t : Track) (l : List Ev) : t.run (.req 0 .getDisplayInfo :: l) = t.run l := rfl
+theorem run_skip_getEdid (t : Track) (a : Nat) (l : List Ev) : t.run (.req 0 (.getEdid a) :: l) = t.run l := rfl
+theorem run_skip_cursorq (t : Track) (c : Cmd) (l : List Ev) : t.run (.req 1 c :: l) = t.run l := rfl
+theorem run_skip_allocFail (t : Track) (r p : Nat) (l : List Ev) : t.run (.alloc r p false :: l) = t.run l := rfl
+
+theorem pagesFor_cursor : pagesFor 16384 = 4 := by decide
+
+macro "gpu_norm" : tactic =>
+  `(tactic| (
+     try simp only [Bool.not_eq_true', Bool.not_eq_true, Bool.not_eq_false, CURSOR_W, CURSOR_H, Nat.reduceMul] at *
+     try simp only [List.nil_append, List.cons_append, effective, Cmd.expected, ← checkType_iff, *, ↓reduceIte,
+        Bool.false_eq_true, CURSOR_W, CURSOR_H, PAGE, Nat.reduceMul, Nat.reduceAdd, Nat.reduceSub, Nat.reduceDiv,
+        run_skip_setScanout, run_skip_transfer, run_skip_flush, run_skip_getDisplayInfo, run_skip_getEdid,
+        run_skip_cursorq, run_skip_allocFail, pagesFor_cursor]))
+
+macro "leaf_any" hi:ident : tactic =>
+  `(tactic| first
+    | exact inv_same $hi rfl rfl rfl
+    | exact inv_fb_attach_zero _ _ _ _ _ ‹pagesFor _ = 0› $hi
+    | exact inv_fb_attach_zero _ _ _ _ _ ‹pagesFor _ = 0› (inv_fb_teardown _ _ _ _ $hi)
+    | exact inv_alloc_release _ _ _ _ _ _ $hi rfl rfl rfl
+    | exact inv_detach _ _ _ _ _ $hi rfl rfl rfl
+    | exact inv_fb_attach_gen _ _ _ _ _ _ (pages_cover _) $hi
+    | exact inv_cursor_none _ _ _ $hi
+    | exact inv_cursor_some _ _ _ _ $hi
+    | exact inv_same (inv_fb_teardown _ _ _ _ $hi) rfl rfl rfl
+    | exact inv_alloc_release _ _ _ _ _ _ (inv_fb_teardown _ _ _ _ $hi) rfl rfl rfl
+    | exact inv_fb_attach_gen _ _ _ _ _ _ (pages_cover _) (inv_fb_teardown _ _ _ _ $hi))
+
+/-- `change_resolution` with an existing framebuffer, any device -/
+theorem step_inv_any_change (dev : Dev) (s : St) (f : Bool) (w h : Nat) (t : Track) (d : Dma) (hfb : s.fb = some d)
+    (hi : BackInv (some d) s.cursor s.nextDma t) :
+    BackInv (step dev s (.changeResolution f w h)).st.fb (step dev s (.changeResolution f w h)).st.cursor
+      (step dev s (.changeResolution f w h)).st.nextDma
+      (t.run (effective dev s.base s.stride 0 (step dev s (.changeResolution f w h)).evs)) := by
+  generalize hout : step dev s (.changeResolution f w h) = out
+  gpu_unfold [hfb] at hout
+  by_cases h1 : checkType (dev 0 (Cmd.encode s.base s.stride (Cmd.setScanout 0 0 0 0 SCANOUT_ID 0))) RESP_OK_NODATA = true
+  · by_cases h2 : checkType (dev (0 + 1) (Cmd.encode s.base s.stride (Cmd.detach RESOURCE_ID_FB))) RESP_OK_NODATA = true
+    · by_cases h3 : checkType (dev (0 + 1 + 1) (Cmd.encode s.base s.stride (Cmd.unref RESOURCE_ID_FB))) RESP_OK_NODATA = true
+      · simp only [h1, h2, h3, Bool.not_true, Bool.false_eq_true, ↓reduceIte] at hout
+        (repeat' split at hout) <;> subst hout <;> gpu_norm <;> leaf_any hi
+      · simp only [Bool.not_eq_true] at h3
+        simp only [h1, h2, h3, Bool.not_true, Bool.not_false, Bool.false_eq_true, ↓reduceIte] at hout
+        subst hout; gpu_norm; leaf_any hi
+    · simp only [Bool.not_eq_true] at h2
+      simp only [h1, h2, Bool.not_true, Bool.not_false, Bool.false_eq_true, ↓reduceIte] at hout
+      subst hout; gpu_norm; leaf_any hi
+  · simp only [Bool.not_eq_true] at h1
+    simp only [h1, Bool.not_false, ↓reduceIte] at hout
+    subst hout; gpu_norm; leaf_any hi
+
+/-- `setup_framebuffer` with an existing framebuffer, any device -/
+theorem step_inv_any_setup (dev : Dev) (s : St) (f : Bool) (t : Track) (d : Dma) (hfb : s.fb = some d)
+    (hi : BackInv (some d) s.cursor s.nextDma t) :
+    BackInv (step dev s (.setupFramebuffer f)).st.fb (step dev s (.setupFramebuffer f)).st.cursor
+      (step dev s (.setupFramebuffer f)).st.nextDma
+      (t.run (effective dev s.base s.stride 0 (step dev s (.setupFramebuffer f)).evs)) := by
+  generalize hout : step dev s (.setupFramebuffer f) = out
+  simp only [step, setupFramebuffer, getDisplayInfoThen, Ctx.ctrl] at hout
+  split at hout
+  · generalize fieldAt (dev 0 (Cmd.encode s.base s.stride Cmd.getDisplayInfo)) 32 4 = w at hout
+    generalize fieldAt (dev 0 (Cmd.encode s.base s.stride Cmd.getDisplayInfo)) 36 4 = hh at hout
+    gpu_unfold [hfb] at hout
+    by_cases h1 : checkType (dev 1 (Cmd.encode s.base s.stride (Cmd.setScanout 0 0 0 0 SCANOUT_ID 0))) RESP_OK_NODATA = true
+    · by_cases h2 : checkType (dev 2 (Cmd.encode s.base s.stride (Cmd.detach RESOURCE_ID_FB))) RESP_OK_NODATA = true
+      · by_cases h3 : checkType (dev 3 (Cmd.encode s.base s.stride (Cmd.unref RESOURCE_ID_FB))) RESP_OK_NODATA = true
+        · simp only [h1, h2, h3, Bool.not_true, Bool.false_eq_true, ↓reduceIte] at hout
+          (repeat' split at hout) <;> subst hout <;> gpu_norm <;> leaf_any hi
+        · simp only [Bool.not_eq_true] at h3
+          simp only [h1, h2, h3, Bool.not_true, Bool.not_false, Bool.false_eq_true, ↓reduceIte] at hout
+          subst hout; gpu_norm; leaf_any hi
+      · simp only [Bool.not_eq_true] at h2
+        simp only [h1, h2, Bool.not_true, Bool.not_false, Bool.false_eq_true, ↓reduceIte] at hout
+        subst hout; gpu_norm; leaf_any hi
+    · simp only [Bool.not_eq_true] at h1
+      simp only [h1, Bool.not_false, ↓reduceIte] at hout
+      subst hout; gpu_norm; leaf_any hi
+  · subst hout; gpu_norm; leaf_any hi
+
+/-- one operation, **any device**: the backing invariant is preserved over the trace as the device
+acted on it — whatever it answers to whichever command, including a panicking operation -/
+theorem step_inv_any (dev : Dev) (s : St) (op : Op) (t : Track)
+    (hi : BackInv s.fb s.cursor s.nextDma t) :
+    BackInv (step dev s op).st.fb (step dev s op).st.cursor (step dev s op).st.nextDma
+      (t.run (effective dev s.base s.stride 0 (step dev s op).evs)) := by
+  rcases hfb : s.fb with _ | d
+  · generalize hout : step dev s op = out
+    rcases hcur : s.cursor with _ | o <;> rw [hfb, hcur] at hi <;> cases op
+    all_goals (gpu_unfold [hfb] at hout <;> (try simp only [hcur] at hout) <;> (repeat' split at hout) <;> subst hout <;> gpu_norm <;> leaf_any hi)
+  · rw [hfb] at hi
+    cases op
+    case changeResolution f w h => exact step_inv_any_change dev s f w h t d hfb hi
+    case setupFramebuffer f => exact step_inv_any_setup dev s f t d hfb hi
+    all_goals (
+      generalize hout : step dev s _ = out
+      rcases hcur : s.cursor with _ | o <;> rw [hcur] at hi <;>
+      (gpu_unfold [hfb] at hout <;> (try simp only [hcur] at hout) <;> (repeat' split at hout) <;> subst hout <;> gpu_norm <;> leaf_any hi))
+
+/-- the trace of a history as the device acted on it (per operation, the device's answers are indexed
+from 0 again) -/
+def effTrace (dev : Dev) : St → List Op → List Ev
+  | _, [] => []
+  | s, op :: ops => effective dev s.base s.stride 0 (step dev s op).evs ++ effTrace dev (step dev s op).st ops
+
+theorem history_inv_any (dev : Dev) : ∀ (ops : List Op) (s : St) (t : Track),
+    BackInv s.fb s.cursor s.nextDma t →
+    BackInv (finalSt dev s ops).fb (finalSt dev s ops).cursor (finalSt dev s ops).nextDma
+      (t.run (effTrace dev s ops)) := by
+  intro ops
+  induction ops with
+  | nil => intro s t hi; simpa [finalSt, effTrace, Track.run] using hi
+  | cons op ops ih =>
+    intro s t hi
+    have h2 := ih (step dev s op).st _ (step_inv_any dev s op t hi)
+    simpa [finalSt, effTrace, run_append] using h2
+
+/-- **GPU backing memory, every device**: in every history of public operations on a fresh driver,
+against a device that answers every command with whatever it likes (success, any error type, garbage),
+including operations that panic: no DMA region is released while a device resource has it attached —
+attached meaning the device accepted `RESOURCE_ATTACH_BACKING` for it and has not since accepted
+`RESOURCE_DETACH_BACKING` / `RESOURCE_UNREF` or a replacing attach —, every accepted backing lies in a
+live region covering its length, and that length is the `width*height*4` of the resource as created.
+(Holds since fix 1ac4978; before it a rejected `SET_SCANOUT` / `TRANSFER_TO_HOST_2D` released the
+attached region, see the first example below.) -/
+theorem backing_never_released_any_device (dev : Dev) (s0 : St) (h0 : s0.fb = none ∧ s0.cursor = none)
+    (ops : List Op) : ¬ (Track.init.run (effTrace dev s0 ops)).violated := by
+  have hinit : BackInv s0.fb s0.cursor s0.nextDma Track.init := by
+    rw [h0.1, h0.2]
+    exact ⟨by simp [Track.init], by simp [Track.init], by simp, by simp, by simp [Track.init], by simp⟩
+  exact (history_inv_any dev ops s0 _ hinit).ok
+
+/-- the observer is not vacuous: the trace of the behaviour before the fix (attach accepted, then the
+region released) is flagged -/
+example : (Track.init.run [.req 0 (.create2d RESOURCE_ID_FB 2 2), .alloc 0 1 true,
+    .req 0 (.attach RESOURCE_ID_FB 0 16), .dealloc 0 1]).violated := by
+  simp [Track.run, Track.ev, Track.init]
+
+/-- a device that accepts everything but `SET_SCANOUT`: the attach is part of the effective trace, the
+rejected command is not, and the region stays with the driver -/
+example :
+    effTrace (fun k _ => if k = 2 then le32 0x1200 else le32 0x1100) {} [.changeResolution false 2 2] =
+      [.req 0 (.create2d RESOURCE_ID_FB 2 2), .alloc 0 1 true, .req 0 (.attach RESOURCE_ID_FB 0 16)] := by
+  decide
+
+/-- before fix 1ac4978 a rejected `SET_SCANOUT` released the region that had just been attached; now
+the region is kept (and owned by the driver state) whatever the device answers afterwards -/
 example :
     (changeResolution (fun k _ => if k = 2 then le32 0x1200 else le32 0x1100) false {} 2 2).evs =
       [.req 0 (.create2d RESOURCE_ID_FB 2 2), .alloc 0 1 true, .req 0 (.attach RESOURCE_ID_FB 0 16),
-       .req 0 (.setScanout 0 0 2 2 SCANOUT_ID RESOURCE_ID_FB), .dealloc 0 1] := by decide
+       .req 0 (.setScanout 0 0 2 2 SCANOUT_ID RESOURCE_ID_FB)]
+    ∧ (changeResolution (fun k _ => if k = 2 then le32 0x1200 else le32 0x1100) false {} 2 2).st.fb = some ⟨0, 1⟩
+    ∧ (changeResolution (fun k _ => if k = 2 then le32 0x1200 else le32 0x1100) false {} 2 2).res = .err .ioError := by
+  decide
 
-/-- why "no operation panics" is needed: a zero-sized framebuffer accepted by the device makes
-`raw_slice` panic after the (empty) region was attached, and unwinding releases it -/
+/-- a zero-sized framebuffer accepted by the device makes `raw_slice` panic after the (empty) region
+was attached; the region is already stored in the driver, so unwinding does not release it -/
 example :
     (changeResolution (fun _ _ => le32 0x1100) false {} 0 7).res = .panic ∧
     (changeResolution (fun _ _ => le32 0x1100) false {} 0 7).evs =
-      [.req 0 (.create2d RESOURCE_ID_FB 0 7), .alloc 0 0 true, .req 0 (.attach RESOURCE_ID_FB 0 0),
-       .req 0 (.setScanout 0 0 0 7 SCANOUT_ID RESOURCE_ID_FB), .dealloc 0 0] := by decide
+      [.req 0 (.create2d RESOURCE_ID_FB 0 7), .alloc 0 0 true, .req 0 (.attach RESOURCE_ID_FB 0 0)] := by decide
 
 end Gpu
 
